@@ -269,7 +269,7 @@ func runC20(p *core.Prog, r *core.Report) {
 		// the pid leaves through encoding/binary: binary.Write(os.Stdout, order, pid), or order.PutUint32(buf, pid) followed
 		// by os.Stdout.Write(buf)
 		pidArg := map[*ssa.Call]ssa.Value{}
-		var putCalls []*ssa.Call
+		var putCalls, appCalls []*ssa.Call
 		sx.Instrs(launcher, func(in ssa.Instruction) {
 			c, ok := in.(*ssa.Call)
 			if !ok {
@@ -282,8 +282,24 @@ func runC20(p *core.Prog, r *core.Report) {
 				pidArg[c] = c.Call.Args[2]
 			case strings.HasPrefix(n, "(encoding/binary.") && strings.Contains(n, ").PutUint"):
 				putCalls = append(putCalls, c)
+			case strings.HasPrefix(n, "(encoding/binary.") && strings.Contains(n, ").AppendUint"):
+				appCalls = append(appCalls, c)
 			}
 		})
+		// order.AppendUint32(nil, pid) handed to os.Stdout.Write
+		for _, ac := range appCalls {
+			args := sx.Args(ac)
+			sx.Instrs(launcher, func(in ssa.Instruction) {
+				c, ok := in.(*ssa.Call)
+				if !ok || sx.CalleeName(c) != "(*os.File).Write" || !sx.Origins(sx.Args(c)[0])["global:Stdout"] {
+					return
+				}
+				if sx.Unspill(sx.Args(c)[1]) == ssa.Value(ac) {
+					writes = append(writes, c)
+					pidArg[c] = args[len(args)-1]
+				}
+			})
+		}
 		for _, pc := range putCalls {
 			args := sx.Args(pc)
 			// the stdout write that follows the encoding step stands for the write of the pid
@@ -338,7 +354,7 @@ func runC20(p *core.Prog, r *core.Report) {
 			nilRun, _ := sx.NilEdges(run)
 			// stderr-empty edge
 			emptyEdges := map[sx.Edge]bool{}
-			var readCall *ssa.Call
+			var readCall, decodeCall *ssa.Call
 			sx.Instrs(launch, func(in ssa.Instruction) {
 				switch x := in.(type) {
 				case *ssa.BinOp:
@@ -364,35 +380,110 @@ func runC20(p *core.Prog, r *core.Report) {
 					switch sx.CalleeName(x) {
 					case "encoding/binary.Read", "io.ReadFull", "io.ReadAtLeast":
 						readCall = x
+					default:
+						// order.Uint32(stdout bytes): decoding a short slice panics, it never yields a pid
+						if n := sx.CalleeName(x); strings.HasPrefix(n, "(encoding/binary.") && strings.Contains(n, ").Uint") {
+							decodeCall = x
+						}
 					}
 				}
 			})
 			okRet := true
 			why := ""
 			nNil := 0
-			for _, ret := range sx.Returns(launch) {
-				ev := returnValue(ret, len(ret.Results)-1)
-				if !sx.IsNilConst(ev) {
-					continue
-				}
-				nNil++
-				if len(nilRun) == 0 || !sx.MustPass(launch, nil, ret, sx.Cut{Edges: nilRun}) {
-					okRet, why = false, "a nil error is returned although the launcher failed"
-				}
-				if len(emptyEdges) == 0 || !sx.MustPass(launch, nil, ret, sx.Cut{Edges: emptyEdges}) {
-					okRet, why = false, "a nil error is returned although the launcher wrote to stderr"
-				}
-				if readCall == nil {
-					okRet, why = false, "the pid is not read from the launcher's stdout"
-				} else {
-					nilRead, _ := sx.NilEdges(readCall)
-					if len(nilRead) == 0 || !sx.MustPass(launch, nil, ret, sx.Cut{Edges: nilRead}) {
-						okRet, why = false, "a nil error is returned although reading the pid failed"
+			for _, ret0 := range sx.Returns(launch) {
+				// a single `return pid, err` at the end: one case per path the error value arrives on
+				for _, rc := range retCases(ret0, len(ret0.Results)-1) {
+					if !sx.IsNilConst(rc.Val) {
+						continue
+					}
+					ret := rc.At
+					nNil++
+					if len(nilRun) == 0 || !sx.MustPass(launch, nil, ret, sx.Cut{Edges: nilRun}) {
+						okRet, why = false, "a nil error is returned although the launcher failed"
+					}
+					if len(emptyEdges) == 0 || !sx.MustPass(launch, nil, ret, sx.Cut{Edges: emptyEdges}) {
+						okRet, why = false, "a nil error is returned although the launcher wrote to stderr"
+					}
+					if readCall == nil && decodeCall != nil {
+						if !sx.MustPass(launch, nil, ret, sx.Cut{Instrs: map[ssa.Instruction]bool{decodeCall: true}}) {
+							okRet, why = false, "a nil error is returned on a path that does not decode the pid from the launcher's stdout"
+						}
+					} else if readCall == nil {
+						okRet, why = false, "the pid is not read from the launcher's stdout"
+					} else {
+						nilRead, _ := sx.NilEdges(readCall)
+						if len(nilRead) == 0 || !sx.MustPass(launch, nil, ret, sx.Cut{Edges: nilRead}) {
+							okRet, why = false, "a nil error is returned although reading the pid failed"
+						}
 					}
 				}
 			}
 			r.Check(okRet && nNil > 0, "C20-R3", "Launch returns nil only for a completed hand-shake", p.FuncPos(launch), fmt.Sprintf("%d nil-error return(s): after Run succeeded, stderr empty, pid read", nNil), why)
 		}
+	}
+
+	// ---- R3 (cont.): the two ends of the pipe agree on how the pid is spelled (byte order and width)
+	if launch != nil {
+		spell := func(fn *ssa.Function, writer bool) map[string]bool {
+			out := map[string]bool{}
+			orderOf := func(v ssa.Value) string {
+				org := sx.Origins(v)
+				switch {
+				case org["global:LittleEndian"] && len(org) == 1:
+					return "little-endian"
+				case org["global:BigEndian"] && len(org) == 1:
+					return "big-endian"
+				case org["global:NativeEndian"] && len(org) == 1:
+					return "native-endian"
+				}
+				return "order " + keys(org)
+			}
+			widthOf := func(v ssa.Value, ptr bool) string {
+				if mi, ok := v.(*ssa.MakeInterface); ok {
+					v = mi.X
+				}
+				t := v.Type()
+				if ptr {
+					if pt := ptrTo(t); pt != nil {
+						t = pt
+					}
+				}
+				return t.Underlying().String()
+			}
+			sx.Instrs(fn, func(in ssa.Instruction) {
+				c, ok := in.(*ssa.Call)
+				if !ok {
+					return
+				}
+				n := sx.CalleeName(c)
+				switch {
+				case writer && n == "encoding/binary.Write":
+					out[orderOf(c.Call.Args[1])+" "+widthOf(c.Call.Args[2], false)] = true
+				case !writer && n == "encoding/binary.Read":
+					out[orderOf(c.Call.Args[1])+" "+widthOf(c.Call.Args[2], true)] = true
+				case strings.HasPrefix(n, "(encoding/binary."):
+					// (encoding/binary.littleEndian).PutUint32 / AppendUint32 / Uint32
+					rest := strings.TrimPrefix(n, "(encoding/binary.")
+					i := strings.Index(rest, ").")
+					if i < 0 {
+						return
+					}
+					ord, m := strings.ToLower(rest[:i]), rest[i+2:]
+					ord = strings.TrimSuffix(ord, "endian") + "-endian"
+					isW := strings.HasPrefix(m, "PutUint") || strings.HasPrefix(m, "AppendUint")
+					isR := strings.HasPrefix(m, "Uint")
+					if (writer && isW) || (!writer && isR) {
+						w := strings.TrimPrefix(strings.TrimPrefix(strings.TrimPrefix(m, "Put"), "Append"), "Uint")
+						out[ord+" uint"+w] = true
+					}
+				}
+			})
+			return out
+		}
+		ws, rs := spell(launcher, true), spell(launch, false)
+		same := len(ws) == 1 && len(rs) == 1 && keys(ws) == keys(rs)
+		r.Check(same, "C20-R3", "launcher and Launch spell the pid the same way", p.FuncPos(launch), "written and read as "+keys(ws), "the launcher writes the pid as "+keys(ws)+" but Launch reads it as "+keys(rs)+": Launch would return a number that is not the daemon's pid")
 	}
 
 	// ---- R3 (cont.): per-call state of Launch/launch is fresh — output buffers and the environment slice
